@@ -12,3 +12,7 @@ import ChiaModel.Props.C06
 #print axioms ChiaModel.C06.wrapF_clear_ff
 #print axioms ChiaModel.C06.perm_conditions_spend_partial
 #print axioms ChiaModel.C06.condLoop_factorisation
+#print axioms ChiaModel.C06.perm_spends
+#print axioms ChiaModel.C06.perm_spends_accept_iff
+#print axioms ChiaModel.C06.perm_conditions_bundle
+#print axioms ChiaModel.C06.perm_conditions_bundle_accept_iff
